@@ -95,6 +95,7 @@ fn layout(c: &Case) -> LayoutSpec {
         ldb_reopens: 0,
         ldb_compact: false,
         ldb_history: false,
+        xor_link: 0,
     }
 }
 
